@@ -494,8 +494,10 @@ func (g *seqGen) history(nops int) {
 				g.emit("s 0 %s %d %s", hexKey(k), g.newContent(true), g.via())
 			case r < 60:
 				g.emit("d 0 %s", hexKey(k))
-			case r < 63:
+			case r < 62:
 				g.emit("s 0 - %d %s", g.newContent(false), g.via()) // empty key
+			case r < 63:
+				g.emit("d 0 -") // Delete accepts the empty key: a tombstone nobody can read
 			case r < 66:
 				g.emit("g 0 %s", hexKey("never-written"))
 			case r < 90:
@@ -526,7 +528,11 @@ func (g *seqGen) history(nops int) {
 			if g.rng.p(25) {
 				id = 0
 			}
-			g.emit("d %d %s", id, hexKey(g.pickKey()))
+			if g.rng.p(8) {
+				g.emit("d %d -", id) // empty key
+			} else {
+				g.emit("d %d %s", id, hexKey(g.pickKey()))
+			}
 		case r < 72:
 			id, _ := g.pickTx(late)
 			g.emit("g %d %s", id, hexKey(g.pickKey()))
